@@ -157,6 +157,15 @@ func handle(r *Req) (resp Resp) {
 		root := &tree.Node{Entry: st}
 		out, err := root.PrintNodeTree(nil, r.Flat, r.Bin, r.Anno, r.Dov, r.AcTop, 0)
 		return withOut(Resp{"err": err.ErrorCode, "valid": json.Valid([]byte(out))}, out)
+	case "bvisn":
+		// root given as a node (pair combinations, node arrays)
+		root, e := sx.ParseNode(r.Tree)
+		if e != nil {
+			return Resp{"bad": e.Error()}
+		}
+		setVisGlobals(r)
+		out, err := root.PrintNodeTree(nil, r.Flat, r.Bin, r.Anno, r.Dov, r.AcTop, 0)
+		return withOut(Resp{"err": err.ErrorCode, "valid": json.Valid([]byte(out))}, out)
 	case "btab":
 		st, e := sx.ParseStmt(r.Tree)
 		if e != nil {
